@@ -1,78 +1,11 @@
 (* C19 round trip, part 4: parse (write v) = canon v *)
 From Coq Require Import List NArith ZArith Bool Lia.
 From OlaBase Require Import Bytes.
-From C19 Require Import Gen Model Spec ProofsPtr RTNum RTStr RTDefs.
+From C19 Require Import Gen Model Spec ProofsPtr ProofsParse RTNum RTStr RTDefs.
 Import ListNotations.
 Local Open Scope N_scope.
 
 Notation W := (write cx_parsed).
-
-(* ---- one-step equations of ParseTrimmedInput on the writer's first characters ---- *)
-Lemma pv_arr : forall f d r, parse_value (S f) d (91 :: r) =
-  if MAX_DEPTH <=? d then PErr 12 else
-  match trim r with
-  | [] => PErr 4
-  | c1 :: r1 => if c1 =? 93 then POk (JArr []) r1 else parse_elems f (d + 1) (trim r) []
-  end.
-Proof. reflexivity. Qed.
-Lemma pv_obj : forall f d r, parse_value (S f) d (123 :: r) =
-  if MAX_DEPTH <=? d then PErr 12 else
-  match trim r with
-  | [] => PErr 6
-  | c1 :: r1 => if c1 =? 125 then POk (JObj []) r1 else parse_members f (d + 1) (trim r) []
-  end.
-Proof. reflexivity. Qed.
-Lemma pv_str : forall f d r, parse_value (S f) d (34 :: r) =
-  match parse_str r [] with POk s rest => POk (JStr s) rest | PErr e => PErr e | PFuel => PFuel | PDeep => PDeep end.
-Proof. reflexivity. Qed.
-Lemma pe_step : forall f d l acc, parse_elems (S f) d l acc =
-  if MAX_DEPTH <? d then PDeep else
-  match trim l with
-  | [] => PErr 4
-  | c1 :: r1 =>
-    match parse_value f d (c1 :: r1) with
-    | PFuel => PFuel | PDeep => PDeep | PErr e => PErr e
-    | POk v rr =>
-      match trim rr with
-      | [] => PErr 4
-      | c2 :: r2 => if c2 =? 93 then POk (JArr (lrev (v :: acc))) r2
-                    else if c2 =? 44 then parse_elems f d r2 (v :: acc)
-                    else PErr 5
-      end
-    end
-  end.
-Proof. reflexivity. Qed.
-Lemma pm_step : forall f d l acc, parse_members (S f) d l acc =
-  if MAX_DEPTH <? d then PDeep else
-  match trim l with
-  | [] => PErr 6
-  | c :: r =>
-    if negb (c =? 34) then PErr 7 else
-    match parse_str r [] with
-    | PFuel => PFuel | PDeep => PDeep | PErr e => PErr e
-    | POk key r1 =>
-      match trim r1 with
-      | [] => PErr 8
-      | c2 :: r2 =>
-        if negb (c2 =? 58) then PErr 9 else
-        match trim r2 with
-        | [] => PErr 6
-        | c3 :: r3 =>
-          match parse_value f d (c3 :: r3) with
-          | PFuel => PFuel | PDeep => PDeep | PErr e => PErr e
-          | POk v r4 =>
-            match trim r4 with
-            | [] => PErr 6
-            | c5 :: r5 => if c5 =? 125 then POk (JObj (obj_put key v acc)) r5
-                          else if c5 =? 44 then parse_members f d r5 (obj_put key v acc)
-                          else PErr 10
-            end
-          end
-        end
-      end
-    end
-  end.
-Proof. reflexivity. Qed.
 
 (* ---- first character of a written value ---- *)
 Lemma write_head : forall k v ind, wfb k v = true ->
@@ -112,6 +45,36 @@ Proof.
 Qed.
 
 Ltac lens := repeat (progress (rewrite ?app_length in *; cbn [length app] in *)).
+
+Section WithPut.
+Variable put : N -> list N -> jv -> list (list N * jv) -> list (list N * jv).
+Local Notation parse_value := (parse_value_g put).
+Local Notation parse_elems := (parse_elems_g put).
+Local Notation parse_members := (parse_members_g put).
+Local Notation parse_text_fuel := (parse_text_fuel_g put).
+Local Notation parse_text := (parse_text_g put).
+
+Hypothesis Hput : forall d k v acc,
+  Forall (fun q => key_cmp k (fst q) = Gt) acc -> put d k v acc = acc ++ [(k, v)].
+
+(* ---- one-step equations of ParseTrimmedInput on the writer's first characters ---- *)
+Lemma pv_arr : forall f d r, parse_value (S f) d (91 :: r) =
+  if MAX_DEPTH <=? d then PErr 12 else
+  match trim r with
+  | [] => PErr 4
+  | c1 :: r1 => if c1 =? 93 then POk (JArr []) r1 else parse_elems f (d + 1) (trim r) []
+  end.
+Proof. reflexivity. Qed.
+Lemma pv_obj : forall f d r, parse_value (S f) d (123 :: r) =
+  if MAX_DEPTH <=? d then PErr 12 else
+  match trim r with
+  | [] => PErr 6
+  | c1 :: r1 => if c1 =? 125 then POk (JObj []) r1 else parse_members f (d + 1) (trim r) []
+  end.
+Proof. reflexivity. Qed.
+Lemma pv_str : forall f d r, parse_value (S f) d (34 :: r) =
+  match parse_str r [] with POk s rest => POk (JStr s) rest | PErr e => PErr e | PFuel => PFuel | PDeep => PDeep end.
+Proof. reflexivity. Qed.
 
 Definition fuel_ok (txt : list N) (extra fuel : nat) : Prop := (2 * length txt + extra <= fuel)%nat.
 
@@ -229,7 +192,7 @@ Proof.
     rewrite (Hp kk d inner (10 :: spaces ind ++ 125 :: rest) f Hwp Hd).
     + change (10 :: spaces ind ++ 125 :: rest) with ((10 :: spaces ind) ++ 125 :: rest).
       rewrite trim_ws_app by apply all_ws_nl_spaces. rewrite trim_nonws by reflexivity.
-      cbn [N.eqb Pos.eqb]. rewrite obj_put_append.
+      cbn [N.eqb Pos.eqb]. rewrite Hput.
       * reflexivity.
       * eapply Forall_impl; [|exact Hacc]. intros q Hq. inversion Hq; subst. assumption.
     + cbn [follow]. left. reflexivity.
@@ -251,9 +214,9 @@ Proof.
     change (c :: r0 ++ tail) with ((c :: r0) ++ tail). rewrite <- Ew.
     rewrite (Hp kk d inner tail f Hwp Hd).
     + unfold tail at 1. rewrite trim_nonws by reflexivity. cbn [N.eqb Pos.eqb].
-      assert (Hput : obj_put (fst p) (canon (snd p)) acc = acc ++ [cm p]).
-      { apply obj_put_append. eapply Forall_impl; [|exact Hacc]. intros q Hq. inversion Hq; subst. assumption. }
-      rewrite Hput.
+      assert (Hput1 : put d (fst p) (canon (snd p)) acc = acc ++ [cm p]).
+      { apply Hput. eapply Forall_impl; [|exact Hacc]. intros q Hq. inversion Hq; subst. assumption. }
+      rewrite Hput1.
       cbn [sortedb] in Hsort. apply andb_true_iff in Hsort. destruct Hsort as [Hgt Hsort].
       change (10 :: spaces inner ++ 34 :: escape_str (fst p2) ++ 34 :: 58 :: 32 ::
               W inner (snd p2) ++ wmtail_k inner x' (10 :: spaces ind ++ 125 :: rest))
@@ -271,3 +234,5 @@ Proof.
     + unfold tail. cbn [follow]. right. left. reflexivity.
     + unfold fuel_ok. rewrite Ew. unfold tail in *. lens. lia.
 Qed.
+
+End WithPut.
